@@ -17,7 +17,7 @@
 use calamine::{Reader, Xlsx};
 use std::collections::BTreeMap;
 use std::io::Cursor;
-use verif_harness::xlsxw::{Layout, XCell, XFormula, XVal, XlsxBook, XlsxSheet};
+use verif_harness::xlsxw::{end, start, text, Ev, Layout, XCell, XFormula, XVal, XlsxBook, XlsxSheet};
 use verif_harness::{driver::Driver, guarded, hex, report::Report, rng::Rng, unhex, Args};
 
 const MAX_ROWS: i64 = 1_048_576;
@@ -567,7 +567,7 @@ fn items_wire(items: &[Item]) -> String {
 
 /// the xlsx file of a description (cells in document order = row-major) and the XML events of its worksheet
 /// part in the drivers' wire form (`None` when the sheet had to be written as raw XML)
-fn build_file(items: &[Item], layout_seed: u64) -> (Vec<u8>, Option<String>) {
+fn build_file(items: &[Item], layout_seed: u64, stream: bool) -> (Vec<u8>, Option<String>) {
     let mut sh = XlsxSheet::new("S");
     for it in items {
         let (r, c) = it.pos();
@@ -582,33 +582,70 @@ fn build_file(items: &[Item], layout_seed: u64) -> (Vec<u8>, Option<String>) {
         };
         sh.set(r, c, cell);
     }
-    if items.iter().any(|i| matches!(i, Item::NoSi { .. })) {
-        // `<f t="shared"/>` without `si` cannot be expressed by the writer: write the sheet by hand
-        let mut rows: BTreeMap<u32, Vec<&Item>> = BTreeMap::new();
-        for it in items {
-            rows.entry(it.pos().0).or_default().push(it);
+    let mut hand_events: Option<Vec<Ev>> = None;
+    if stream || items.iter().any(|i| matches!(i, Item::NoSi { .. })) {
+        // written by hand, as events: `<f t="shared"/>` without `si` cannot be expressed by the writer, and in
+        // stream mode the cells are written in the order of `items`: consecutive cells of one row form one `<row r>`
+        // element, so a row may come in several fragments and rows in any order (every cell carries its `r`)
+        let mut order: Vec<&Item> = items.iter().collect();
+        if !stream {
+            order.sort_by_key(|i| i.pos());
         }
-        let mut x = String::from("<worksheet xmlns=\"http://schemas.openxmlformats.org/spreadsheetml/2006/main\"><sheetData>");
-        for (r, its) in rows {
-            x.push_str(&format!("<row r=\"{}\">", r + 1));
-            let mut its = its;
-            its.sort_by_key(|i| i.pos());
-            for it in its {
-                let (r, c) = it.pos();
-                let f = match it {
-                    Item::Master { si, rect, toks, .. } => format!("<f t=\"shared\" ref=\"{}\" si=\"{si}\">{}</f>", rect_text(*rect), verif_harness::xlsxw::esc_text(&render(toks))),
-                    Item::MasterRaw { si, rf, toks, .. } => format!("<f t=\"shared\" ref=\"{}\" si=\"{si}\">{}</f>", verif_harness::xlsxw::esc_attr(rf), verif_harness::xlsxw::esc_text(&render(toks))),
-                    Item::Child { si, .. } => format!("<f t=\"shared\" si=\"{si}\"/>"),
-                    Item::Plain { toks, .. } => format!("<f>{}</f>", verif_harness::xlsxw::esc_text(&render(toks))),
-                    Item::Value { .. } => String::new(),
-                    Item::NoSi { .. } => "<f t=\"shared\"/>".to_string(),
-                };
-                x.push_str(&format!("<c r=\"{}\">{f}<v>1</v></c>", a1(r, c)));
+        let ns = "http://schemas.openxmlformats.org/spreadsheetml/2006/main";
+        let mut evs = vec![start("worksheet", &[("xmlns", ns)]), start("sheetData", &[])];
+        let mut open_row: Option<u32> = None;
+        for it in order {
+            let (r, c) = it.pos();
+            if open_row != Some(r) {
+                if open_row.is_some() {
+                    evs.push(end("row"));
+                }
+                evs.push(start("row", &[("r", &(r as u64 + 1).to_string())]));
+                open_row = Some(r);
             }
-            x.push_str("</row>");
+            evs.push(start("c", &[("r", &a1(r, c))]));
+            match it {
+                Item::Master { si, rect, toks, .. } => {
+                    evs.push(start("f", &[("t", "shared"), ("ref", &rect_text(*rect)), ("si", &si.to_string())]));
+                    evs.push(text(&render(toks)));
+                    evs.push(end("f"));
+                }
+                Item::MasterRaw { si, rf, toks, .. } => {
+                    evs.push(start("f", &[("t", "shared"), ("ref", rf), ("si", &si.to_string())]));
+                    evs.push(text(&render(toks)));
+                    evs.push(end("f"));
+                }
+                Item::Child { si, .. } => {
+                    evs.push(start("f", &[("t", "shared"), ("si", &si.to_string())]));
+                    evs.push(end("f"));
+                }
+                Item::Plain { toks, .. } => {
+                    evs.push(start("f", &[]));
+                    evs.push(text(&render(toks)));
+                    evs.push(end("f"));
+                }
+                Item::Value { .. } => {}
+                Item::NoSi { .. } => {
+                    evs.push(start("f", &[("t", "shared")]));
+                    evs.push(end("f"));
+                }
+            }
+            evs.push(start("v", &[]));
+            evs.push(text("1"));
+            evs.push(end("v"));
+            evs.push(end("c"));
         }
-        x.push_str("</sheetData></worksheet>");
-        sh.raw_xml = Some(x);
+        if open_row.is_some() {
+            evs.push(end("row"));
+        }
+        evs.push(end("sheetData"));
+        evs.push(end("worksheet"));
+        let mut k = 0u32;
+        sh.raw_xml = Some(verif_harness::xlsxw::serialize(&evs, || {
+            k += 1;
+            k % 3 != 0
+        }));
+        hand_events = Some(evs);
     }
     let mut book = XlsxBook::new();
     book.sheets.push(sh);
@@ -627,7 +664,10 @@ fn build_file(items: &[Item], layout_seed: u64) -> (Vec<u8>, Option<String>) {
         l
     };
     let built = book.build(&layout);
-    let wire = built.sheet_events.first().filter(|e| !e.is_empty()).map(|e| verif_harness::xlsxw::ev_wire(e));
+    let wire = match &hand_events {
+        Some(e) => Some(verif_harness::xlsxw::ev_wire(e)),
+        None => built.sheet_events.first().filter(|e| !e.is_empty()).map(|e| verif_harness::xlsxw::ev_wire(e)),
+    };
     (built.bytes, wire)
 }
 
@@ -639,22 +679,34 @@ fn build_file(items: &[Item], layout_seed: u64) -> (Vec<u8>, Option<String>) {
 struct Lay {
     seed: u64,
     header: Option<u32>,
+    /// the items are in STREAM order and are written in that order (row fragments, rows out of order); otherwise
+    /// the sheet is written row-major
+    stream: bool,
 }
 
 impl Lay {
     fn plain() -> Lay {
-        Lay { seed: 0, header: None }
+        Lay { seed: 0, header: None, stream: false }
     }
     fn wire(&self) -> String {
-        match self.header {
+        let base = match self.header {
             Some(h) => format!("{}h{}", self.seed, h),
             None => self.seed.to_string(),
+        };
+        if self.stream {
+            base + "s"
+        } else {
+            base
         }
     }
     fn parse(s: &str) -> Lay {
+        let (s, stream) = match s.strip_suffix('s') {
+            Some(x) => (x, true),
+            None => (s, false),
+        };
         match s.split_once('h') {
-            Some((a, b)) => Lay { seed: a.parse().unwrap(), header: Some(b.parse().unwrap()) },
-            None => Lay { seed: s.parse().unwrap(), header: None },
+            Some((a, b)) => Lay { seed: a.parse().unwrap(), header: Some(b.parse().unwrap()), stream },
+            None => Lay { seed: s.parse().unwrap(), header: None, stream },
         }
     }
 }
@@ -728,13 +780,19 @@ fn impl_file_child(items: &[Item], lay: Lay) -> Result<Cells, String> {
         .stderr(Stdio::null())
         .spawn()
         .expect("spawn probe child");
+    // the reply can be longer than a pipe buffer: it is drained by a thread of its own
+    let mut pipe = child.stdout.take().unwrap();
+    let reader = std::thread::spawn(move || {
+        let mut out = String::new();
+        use std::io::Read;
+        let _ = pipe.read_to_string(&mut out);
+        out
+    });
     let t0 = std::time::Instant::now();
     loop {
         match child.try_wait().expect("wait") {
             Some(st) => {
-                let mut out = String::new();
-                use std::io::Read;
-                let _ = child.stdout.take().unwrap().read_to_string(&mut out);
+                let out = reader.join().unwrap_or_default();
                 if !st.success() {
                     return Err("abort".into());
                 }
@@ -752,9 +810,11 @@ fn impl_file_child(items: &[Item], lay: Lay) -> Result<Cells, String> {
     }
 }
 
-fn model_file(items: &[Item], drv: &mut Driver) -> Result<Cells, String> {
+fn model_file(items: &[Item], stream: bool, drv: &mut Driver) -> Result<Cells, String> {
     let mut sorted: Vec<&Item> = items.iter().collect();
-    sorted.sort_by_key(|i| i.pos());
+    if !stream {
+        sorted.sort_by_key(|i| i.pos());
+    }
     let req = if sorted.is_empty() { "-".to_string() } else { sorted.iter().map(|i| i.model_wire()).collect::<Vec<_>>().join(";") };
     let reply = drv.ask(&format!("sheet {req}"));
     parse_cells(&reply)
@@ -764,17 +824,17 @@ fn model_file(items: &[Item], drv: &mut Driver) -> Result<Cells, String> {
 /// group's declared range, after the master in document order) carries the master formula translated
 /// by its offset from the master; the master and plain-formula cells carry their own text; all other
 /// cells carry no formula. `None` when the description leaves the domain the property quantifies over.
-fn oracle_file(items: &[Item], drv: &mut Driver) -> Option<Cells> {
+fn oracle_file(items: &[Item], stream: bool, drv: &mut Driver) -> Option<Cells> {
     let mut sorted: Vec<&Item> = items.iter().collect();
-    sorted.sort_by_key(|i| i.pos());
+    if !stream {
+        sorted.sort_by_key(|i| i.pos());
+    }
     let mut groups: BTreeMap<u32, (Vec<Tok>, (u32, u32, u32, u32), (u32, u32))> = BTreeMap::new();
     let mut out = vec![];
     for it in sorted {
         match it {
             Item::Master { r, c, si, rect, toks } => {
-                if groups.contains_key(si) {
-                    return None; // re-used si: outside the property's domain
-                }
+                // an si declared again: from here on the members belong to this (the last) declaration
                 if !(rect.0 <= *r && *r <= rect.2 && rect.1 <= *c && *c <= rect.3) {
                     return None;
                 }
@@ -842,6 +902,13 @@ fn file_sig(items: &[Item], imp: &Result<Cells, String>, want: &Cells) -> String
     sorted.sort_by_key(|i| i.pos());
     let sis: Vec<u32> = sorted.iter().filter_map(|i| if let Item::Master { si, .. } = i { Some(*si) } else { None }).collect();
     let in_order = sis.iter().enumerate().all(|(i, s)| *s as usize == i);
+    let twice = {
+        let mut seen = std::collections::BTreeSet::new();
+        sis.iter().any(|x| !seen.insert(*x))
+    };
+    if (missing_member || wrong_member) && twice {
+        return "file:si_declared_twice_member_of_stale_group".into();
+    }
     if missing_member && block && in_order {
         "file:block_member_without_formula".into()
     } else if (missing_member || wrong_member) && !in_order {
@@ -858,7 +925,7 @@ fn file_sig(items: &[Item], imp: &Result<Cells, String>, want: &Cells) -> String
 }
 
 fn run_file(items: &[Item], lay: Lay, drv: &mut Driver) -> FileOut {
-    let (bytes, wire) = build_file(items, lay.seed);
+    let (bytes, wire) = build_file(items, lay.seed, lay.stream);
     let imp = if has_huge_si(items) {
         impl_file_child(items, lay)
     } else {
@@ -866,7 +933,7 @@ fn run_file(items: &[Item], lay: Lay, drv: &mut Driver) -> FileOut {
     };
     // the model reads the XML events that were written (event-level model of `next_formula`); the abstract
     // cell-list model (`sheet`) must agree with it (theorem `texts_spec` / `sheet_events_exact`)
-    let abstract_model = model_file(items, drv);
+    let abstract_model = model_file(items, lay.stream, drv);
     let model = match &wire {
         Some(w) => {
             let mut r = parse_cells(&drv.ask(&format!("events {w}")));
@@ -877,7 +944,7 @@ fn run_file(items: &[Item], lay: Lay, drv: &mut Driver) -> FileOut {
         }
         None => abstract_model.clone(),
     };
-    let want = oracle_file(items, drv);
+    let want = oracle_file(items, lay.stream, drv);
     let mut fails = vec![];
     // a result that is right on a freshly opened workbook and wrong after `with_header_row` gets its own class
     let header_dependent = |imp: &Result<Cells, String>, reference: &Cells| -> bool {
@@ -1211,6 +1278,89 @@ fn many_groups(n: u32, base: u32, shuffled: bool, rng: &mut Rng) -> Vec<Item> {
     items
 }
 
+/// the same groups written with every row split in two: all masters first (rows ascending or shuffled), then all
+/// members in any order — an earlier group's member then follows, in the stream, the masters of all later groups
+fn many_groups_split(n: u32, base: u32, shuffled_masters: bool, rng: &mut Rng) -> Vec<Item> {
+    let items = many_groups(n, base, false, rng);
+    let (mut masters, mut members): (Vec<Item>, Vec<Item>) = items.into_iter().partition(|i| matches!(i, Item::Master { .. }));
+    if shuffled_masters {
+        rng.shuffle(&mut masters);
+    }
+    rng.shuffle(&mut members);
+    masters.extend(members);
+    masters
+}
+
+/// a stream order for a row-major description in which every member still follows its master: the masters first
+/// (any order), then the other cells (any order, or row-major: every row then comes in two fragments)
+fn stream_shuffle(items: Vec<Item>, rng: &mut Rng) -> Vec<Item> {
+    let (mut masters, mut others): (Vec<Item>, Vec<Item>) = items.into_iter().partition(|i| matches!(i, Item::Master { .. }));
+    if rng.chance(2, 3) {
+        rng.shuffle(&mut masters);
+    }
+    if rng.chance(1, 2) {
+        rng.shuffle(&mut others);
+    }
+    masters.extend(others);
+    masters
+}
+
+/// one si declared twice: the members after the second declaration belong to it (its text, range and position),
+/// also when a member of the first declaration was the last member read before them
+fn gen_redeclared(rng: &mut Rng) -> Vec<Item> {
+    let r0 = rng.below(20) as u32;
+    let c0 = rng.below(10) as u32;
+    let si = *rng.pick(&[0u32, 1, 5, 1024]);
+    let (h1, w1) = (rng.range(1, 4) as u32, rng.range(1, 3) as u32);
+    let (h2, w2) = (rng.range(1, 4) as u32, rng.range(1, 3) as u32);
+    let rect1 = (r0, c0, r0 + h1 - 1, c0 + w1 - 1);
+    let r2 = r0 + h1 + rng.below(2) as u32;
+    let c2 = c0 + rng.below(2) as u32;
+    // the second declared range may reach back over the first one
+    let rect2 = (if rng.chance(1, 3) { r0 } else { r2 }, c0.min(c2), r2 + h2 - 1, c2 + w2 - 1);
+    let mut items = vec![];
+    let room = |rect: (u32, u32, u32, u32), m: (u32, u32)| Room { dr_min: rect.0 as i64 - m.0 as i64, dr_max: rect.2 as i64 - m.0 as i64, dc_min: rect.1 as i64 - m.1 as i64, dc_max: rect.3 as i64 - m.1 as i64 };
+    items.push(Item::Master { r: r0, c: c0, si, rect: rect1, toks: gen_formula(rng, room(rect1, (r0, c0))) });
+    for r in rect1.0..=rect1.2 {
+        for c in rect1.1..=rect1.3 {
+            if (r, c) != (r0, c0) && rng.chance(4, 5) {
+                items.push(Item::Child { r, c, si });
+            }
+        }
+    }
+    items.push(Item::Master { r: r2, c: c2, si, rect: rect2, toks: gen_formula(rng, room(rect2, (r2, c2))) });
+    for r in r2..=rect2.2 {
+        for c in rect2.1..=rect2.3 {
+            if (r, c) > (r2, c2) && rng.chance(4, 5) {
+                items.push(Item::Child { r, c, si });
+            }
+        }
+    }
+    let mut seen = std::collections::BTreeSet::new();
+    items.retain(|i| seen.insert(i.pos()));
+    items.sort_by_key(|i| i.pos());
+    items
+}
+
+/// a master close to the formula length limit (8192 characters): one long string literal `&` a relative reference.
+/// `ch` is the filling character (1, 2, 3 or 4 UTF-8 bytes), `chars` the length of the whole formula in characters.
+fn long_master(ch: char, chars: usize) -> Vec<Tok> {
+    let tail = vec![Tok::Punct('&'), rf(false, 0, false, 0)];
+    let fill = chars - 2 - render(&tail).chars().count();
+    let mut t = vec![Tok::Str(std::iter::repeat(ch).take(fill).collect())];
+    t.extend(tail);
+    t
+}
+
+fn long_group(ch: char, chars: usize, r0: u32) -> Vec<Item> {
+    vec![
+        Item::Master { r: r0, c: 1, si: 0, rect: (r0, 1, r0 + 1, 2), toks: long_master(ch, chars) },
+        Item::Child { r: r0, c: 2, si: 0 },
+        Item::Child { r: r0 + 1, c: 1, si: 0 },
+        Item::Child { r: r0 + 1, c: 2, si: 0 },
+    ]
+}
+
 fn corpus_files() -> Vec<(Lay, Vec<Item>)> {
     let a1p1 = || vec![rf(false, 0, false, 0), Tok::Punct('+'), Tok::Num("1".into())];
     vec![
@@ -1263,14 +1413,14 @@ fn corpus_files() -> Vec<(Lay, Vec<Item>)> {
             Item::Plain { r: 3, c: 2, toks: a1p1() },
         ]),
         // seeded change C15-m8: `worksheet_formula` must not depend on the header-row option
-        (Lay { seed: 0, header: Some(2) }, vec![
+        (Lay { seed: 0, header: Some(2), stream: false }, vec![
             Item::Plain { r: 0, c: 0, toks: a1p1() },
             Item::Master { r: 0, c: 1, si: 0, rect: (0, 1, 3, 1), toks: a1p1() },
             Item::Child { r: 1, c: 1, si: 0 },
             Item::Child { r: 2, c: 1, si: 0 },
             Item::Child { r: 3, c: 1, si: 0 },
         ]),
-        (Lay { seed: 0, header: Some(u32::MAX) }, vec![
+        (Lay { seed: 0, header: Some(u32::MAX), stream: false }, vec![
             Item::Master { r: 4, c: 1, si: 0, rect: (4, 1, 5, 2), toks: a1p1() },
             Item::Child { r: 5, c: 2, si: 0 },
         ]),
@@ -1291,6 +1441,38 @@ fn corpus_files() -> Vec<(Lay, Vec<Item>)> {
             Item::Child { r: 2, c: 2, si: 0 },
             Item::Child { r: 3, c: 2, si: 0 },
         ]),
+        // seeded change C15-m9: an si declared twice; the last member read before the second group was one of the first
+        (Lay::plain(), vec![
+            Item::Master { r: 0, c: 1, si: 0, rect: (0, 1, 1, 1), toks: a1p1() },
+            Item::Child { r: 1, c: 1, si: 0 },
+            Item::Master { r: 3, c: 1, si: 0, rect: (3, 1, 4, 2), toks: vec![rf(false, 3, false, 3), Tok::Punct('*'), Tok::Num("2".into())] },
+            Item::Child { r: 3, c: 2, si: 0 },
+            Item::Child { r: 4, c: 1, si: 0 },
+            Item::Child { r: 4, c: 2, si: 0 },
+        ]),
+        // … and with the second declared range reaching back over the first one
+        (Lay::plain(), vec![
+            Item::Master { r: 0, c: 0, si: 2, rect: (0, 0, 2, 0), toks: a1p1() },
+            Item::Child { r: 1, c: 0, si: 2 },
+            Item::Master { r: 1, c: 1, si: 2, rect: (0, 0, 2, 1), toks: vec![rf(false, 5, false, 1)] },
+            Item::Child { r: 2, c: 0, si: 2 },
+            Item::Child { r: 2, c: 1, si: 2 },
+        ]),
+        // seeded change C15-m11: masters close to the 8192-CHARACTER limit whose UTF-8 text is longer than 8192 bytes
+        (Lay::plain(), long_group('日', 2733, 0)),
+        (Lay::plain(), long_group('日', 3000, 2)),
+        (Lay::plain(), long_group('😀', 2050, 0)),
+        (Lay::plain(), long_group('é', 4100, 1)),
+        (Lay::plain(), long_group('日', 8192, 0)),
+        (Lay::plain(), long_group('a', 8191, 0)),
+        (Lay::plain(), long_group('a', 8192, 0)),
+        // seeded change C15-m10: a row written as two `<row>` elements; stream order: masters, then members
+        (Lay { seed: 0, header: None, stream: true }, vec![
+            Item::Master { r: 0, c: 0, si: 0, rect: (0, 0, 0, 1), toks: a1p1() },
+            Item::Master { r: 1, c: 0, si: 1, rect: (1, 0, 1, 1), toks: a1p1() },
+            Item::Child { r: 1, c: 1, si: 1 },
+            Item::Child { r: 0, c: 1, si: 0 },
+        ]),
     ]
 }
 
@@ -1302,7 +1484,7 @@ fn main() {
         let q: Vec<&str> = desc.splitn(2, ':').collect();
         let items: Vec<Item> = q[1].split('|').map(Item::parse).collect();
         let lay = Lay::parse(q[0]);
-        println!("{}", show_cells(&impl_file(&build_file(&items, lay.seed).0, lay.header)));
+        println!("{}", show_cells(&impl_file(&build_file(&items, lay.seed, lay.stream).0, lay.header)));
         return;
     }
     let args = Args::parse();
@@ -1321,7 +1503,9 @@ fn main() {
          members = any subset of the declared range, master = first member in document order (ECMA-376 18.3.1.40: the master is the \
          first formula of the group; a member written before its master is outside the generator), si values shuffled with gaps and \
          occasionally huge (up to 2^32-1; such files are read in a child process with a 15 s limit) or at/around powers of two \
-         (15..65536 +-1), plus sheets with 1030-2100 two-cell groups numbered in sequence or shuffled; half of the files are read after \
+         (15..65536 +-1), plus sheets with 1030-2100 two-cell groups numbered in sequence or shuffled; sheets whose rows come in two fragments or out of \
+         order (every member still after its master in the stream), an si declared twice (the last declaration before a member counts), \
+         masters up to 8192 characters with 1- to 4-byte characters; half of the files are read after \
          with_header_row(Row(n)) (n above / inside / below the data: worksheet_formula must not depend on it), \
          cells of the range that are not members and cells outside carry values / own formulas / nothing; read with Xlsx::new + \
          worksheet_formula; the Lean model reads the XML events of the written worksheet part (xlsxw ev_wire) and is cross-checked \
@@ -1411,12 +1595,41 @@ fn main() {
         let base = if k == 0 { 0 } else { *sub.pick(&[0u32, 0, 200, 900, 3000, 64_500]) };
         let items = many_groups(n, base, k % 2 == 1, &mut sub);
         file_case(&items, Lay::plain(), "many_groups", &mut drv, &mut rep, &mut shrunk);
+        // the same kind of sheet with every row in two fragments / rows out of order (members follow later masters)
+        let n2 = *sub.pick(&[130u32, 200, 300, 1100]);
+        let items = many_groups_split(n2, base, k % 2 == 1, &mut sub);
+        file_case(&items, Lay { seed: 0, header: None, stream: true }, "many_groups_out_of_order", &mut drv, &mut rep, &mut shrunk);
     }
     let n_file = args.count(2_000, 200_000) / if args.n.is_some() { 10 } else { 1 };
     for _ in 0..n_file {
         let mut sub = rng.fork();
         let odd = sub.chance(1, 10);
-        let items = if odd { gen_odd_file(&mut sub) } else { gen_file(&mut sub) };
+        let mut items = if odd { gen_odd_file(&mut sub) } else { gen_file(&mut sub) };
+        let mut class = if odd { "odd" } else { "groups" };
+        let mut stream = false;
+        if !odd {
+            match sub.below(60) {
+                0..=3 => {
+                    items = gen_redeclared(&mut sub);
+                    class = "si_declared_twice";
+                }
+                4 => {
+                    // a master near the 8192-character limit (1- to 4-byte characters)
+                    let (ch, chars) = *sub.pick(&[('a', 8192usize), ('a', 8190), ('é', 4097), ('é', 8192), ('日', 2731), ('日', 2735), ('日', 5000), ('日', 8192), ('😀', 2049), ('😀', 8192)]);
+                    let chars = chars - sub.below(3) as usize;
+                    if let Some(Item::Master { toks, .. }) = items.iter_mut().find(|i| matches!(i, Item::Master { .. })) {
+                        *toks = long_master(ch, chars);
+                        class = "long_master";
+                    }
+                }
+                5..=12 => {
+                    items = stream_shuffle(items, &mut sub);
+                    stream = true;
+                    class = "rows_out_of_order";
+                }
+                _ => {}
+            }
+        }
         let layout_seed = if sub.chance(1, 3) { 0 } else { sub.next() | 1 };
         // reader history: an explicit header row set before `worksheet_formula` (above, inside, below the data)
         let header = if sub.chance(1, 2) || items.is_empty() {
@@ -1433,7 +1646,8 @@ fn main() {
                 _ => *sub.pick(&[1u32, 5, 1_048_575, u32::MAX]),
             })
         };
-        file_case(&items, Lay { seed: layout_seed, header }, if odd { "odd" } else { "groups" }, &mut drv, &mut rep, &mut shrunk);
+        let layout_seed = if stream { 0 } else { layout_seed };
+        file_case(&items, Lay { seed: layout_seed, header, stream }, class, &mut drv, &mut rep, &mut shrunk);
     }
     rep.add("driver_requests", drv.requests);
     rep.write(&args.out);
